@@ -13,4 +13,8 @@ mod c16;
 #[cfg(kani)]
 mod c03;
 #[cfg(kani)]
+mod c04;
+#[cfg(kani)]
+mod c05;
+#[cfg(kani)]
 mod gen;
